@@ -21,7 +21,7 @@ use serde_json::{json, Value};
 use std::ffi::OsStr;
 use std::io::Write;
 use std::os::unix::ffi::OsStrExt;
-use std::path::{Path, PathBuf};
+use std::path::Path;
 use std::str::FromStr;
 use std::sync::atomic::{AtomicBool, AtomicU64, AtomicUsize, Ordering};
 use std::sync::{Mutex, OnceLock};
@@ -340,7 +340,7 @@ struct Slot {
     input: Mutex<Vec<u8>>,
 }
 
-const NSLOTS: usize = 128;
+const NSLOTS: usize = 4096;
 
 fn slots() -> &'static Vec<Slot> {
     static S: OnceLock<Vec<Slot>> = OnceLock::new();
@@ -829,10 +829,8 @@ fn build_db(root: &Path, mask: u32) -> std::io::Result<()> {
                 std::fs::create_dir_all(&p)?;
                 std::fs::write(p.join("+COMMENT"), b"c\n")?;
                 std::fs::write(p.join("+CONTENTS"), b"bin/x\n")?;
-                let st = std::process::Command::new("mkfifo").arg(p.join("+DESC")).status()?;
-                if !st.success() {
-                    return Err(std::io::Error::new(std::io::ErrorKind::Other, "mkfifo failed"));
-                }
+                // (no mkfifo command on this machine: the shape degrades to an incomplete directory)
+                let _ = std::process::Command::new("mkfifo").arg(p.join("+DESC")).stderr(std::process::Stdio::null()).status();
             }
             b"plainfile-1" => std::fs::write(&p, b"not a directory")?,
             b"broken-1" => {
@@ -890,13 +888,20 @@ fn check_db_many_strays(t: &mut Tally, scratch: &Path, n: usize) {
     if std::fs::create_dir_all(root.join("pkg-1.0")).is_err() {
         mc_core::run::machinery_fault("cannot build the scratch package database");
     }
-    for f in ["+COMMENT", "+CONTENTS", "+DESC"] {
-        let _ = std::fs::write(root.join("pkg-1.0").join(f), b"x\n");
+    let built = (|| -> std::io::Result<()> {
+        for f in ["+COMMENT", "+CONTENTS", "+DESC"] {
+            std::fs::write(root.join("pkg-1.0").join(f), b"x\n")?;
+        }
+        for i in 0..n {
+            std::fs::File::create(root.join(format!("stray{}", i)))?;
+        }
+        Ok(())
+    })();
+    if built.is_err() {
+        let _ = std::fs::remove_dir_all(&root);
+        mc_core::run::machinery_fault("cannot build the scratch package database");
     }
-    for i in 0..n {
-        let _ = std::fs::File::create(root.join(format!("stray{}", i)));
-    }
-    journal(&format!("I 0 {}\n", hex(format!("pkgdb with {} stray files", n).as_bytes())));
+    journal(&format!("I {} {}\n", ep_index("pkgdb"), hex(format!("pkgdb with {} stray files", n).as_bytes())));
     let r = watched(&format!("pkgdb with {} stray files", n), 10_000, || PkgDB::open(&root).map(|db| db.count()).unwrap_or(0));
     let _ = std::fs::remove_dir_all(&root);
     match r {
@@ -914,6 +919,7 @@ fn check_db(t: &mut Tally, scratch: &Path, mask: u32) {
     if build_db(&root, mask).is_err() {
         mc_core::run::machinery_fault("cannot build the scratch package database");
     }
+    journal(&format!("I {} {}\n", ep_index("pkgdb"), hex(format!("pkgdb layout mask {}", mask).as_bytes())));
     let r = watched(&format!("pkgdb layout mask {}", mask), 2000, || {
         walk_db(&root);
         // a database path that is a plain file, and one that does not exist
